@@ -127,6 +127,7 @@ type COut struct {
 	Src      *SimSource
 	Input    []byte
 	Panic    string
+	Capped   bool    // stopped by the harness's cap on calls, not by the reader
 	Next     *COut   // the stream read after a Reset of the same object
 	AfterEOF ErrInfo // result of one more Read after EOF
 	ApplyErr ErrInfo
@@ -641,6 +642,7 @@ func (x *run) crStream(zr *lz4.CompressingReader, c *plan.CScript, input []byte,
 		}
 	}
 	out.Final = classify(err)
+	out.Capped = err == nil // the harness's own cap on the number of calls was reached
 	if err == io.EOF {
 		_, e2 := zr.Read(make([]byte, 16))
 		out.AfterEOF = classify(e2)
